@@ -22,6 +22,8 @@ def parse_kind(s):
         return s
     if s == 'set':
         return ('set',)
+    if s == 'ddict[int]':
+        return ('ddict', 'int')
     if s.startswith('obj:'):
         return ('obj', s[4:])
     if s.startswith('opaque:'):
